@@ -71,11 +71,35 @@ func c20Compare(c *Ctx, root, pattern string, absolute bool, allFiles []string, 
 	if absolute && len(pattern)%2 == 1 {
 		start = "/nonexistent-start-directory" // an absolute pattern does not depend on where the walk is started
 	}
-	pi := guard(func() { got = files.ParsePath(arg).GetFileList(start) })
+	var again, third []string
+	pi := guard(func() {
+		// a parsed pattern is a value: asking it again, also from another start directory, changes nothing
+		pp := files.ParsePath(arg)
+		got = pp.GetFileList(start)
+		again = pp.GetFileList(start)
+		if absolute {
+			third = pp.GetFileList(root)
+		}
+	})
 	rec := map[string]any{"kind": "glob", "pattern": pattern, "absolute": absolute, "tree": what}
 	if pi != nil {
 		c.Violation("PANIC "+pi.Site, fmt.Sprintf("ParsePath(%q).GetFileList panics: %s", pattern, pi.Msg), rec)
 		return
+	}
+	if pi == nil {
+		if strings.Join(again, "\n") != strings.Join(got, "\n") {
+			c.Violation("REUSE "+shape(pattern), fmt.Sprintf("pattern %q (%s, absolute=%v): the same parsed pattern lists %d files when asked first and %d when asked again", pattern, what, absolute, len(got), len(again)), rec)
+			return
+		}
+		if absolute {
+			a, b := append([]string{}, got...), append([]string{}, third...)
+			sort.Strings(a)
+			sort.Strings(b)
+			if strings.Join(a, "\n") != strings.Join(b, "\n") {
+				c.Violation("REUSE start "+shape(pattern), fmt.Sprintf("absolute pattern %q (%s): %d files from one start directory, %d from another", pattern, what, len(got), len(third)), rec)
+				return
+			}
+		}
 	}
 	var rel []string
 	seen := map[string]bool{}
